@@ -202,6 +202,125 @@ def _is_module_expr(ctx: Ctx, f: FuncInfo, e) -> bool:
   return False
 
 
+def _sub_fixture_sharing(ctx: Ctx, rs: RuleSet):
+  """A value referenced from two generated functions is built once and handed
+  on (variable + parameter); that must hold for what the declared variable
+  contains and for values that are user-chosen sub-fixtures themselves.
+  """
+  from fdlstatic import dispatch
+  # (1) what a variable is declared as went through the rewriting traversal:
+  # a declaration holding the configuration's own (un-rewritten) node repeats
+  # everything below it inline, including values that were given variables
+  rule = 'DEFUSE.declared-expression-rewritten'
+  rs.declare(rule, 'the expression of every VariableDeclaration a pass adds '
+             'is the value rebuilt by that pass (state.map_children(...))', 3)
+  for modname in sorted(ctx.p.modules):
+    if not modname.startswith(AC + '.') or modname.endswith('test_fixtures'):
+      continue
+    for f in ctx.mod(modname).all_funcs:
+      if f.is_lambda:
+        continue
+      g = None
+      for c in ctx.calls(f):
+        if not unparse(c.func).endswith('VariableDeclaration'):
+          continue
+        b = ctx.bound_args(c, f) or {}
+        e = b.get('expression')
+        if e is None:
+          continue
+        g = g or ctx.cfg(f)
+        node = next((n for n in g.nodes() if any(
+            x is c for x in cfg_lib.walk_node(g, n))), None)
+        ok = False
+        how = f'`{unparse(e)}`'
+        if isinstance(e, ast.Name) and node is not None:
+          rd = roles.reaching(g, node, e.id)
+          ok = bool(rd) and all(
+              kind == 'value' and isinstance(v, ast.Call) and isinstance(
+                  v.func, ast.Attribute) and v.func.attr == 'map_children'
+              for _, kind, v in rd)
+          how = f'`{e.id}` <- ' + ', '.join(sorted(
+              {unparse(v)[:40] if v is not None else kind
+               for _, kind, v in rd}))
+        rs.check(ok, rule, f'{modname}:VariableDeclaration.expression',
+                 f'{how}: the rebuilt value' if ok else
+                 f'{how}: the variable is declared as the configuration\'s '
+                 'own node, which the replacing traversal never rewrites: a '
+                 'shared value that contains another shared value repeats it '
+                 'inline instead of naming its variable, and the executed '
+                 'module builds two objects', ctx.loc(f, c))
+  # (2) the marking of what the top-level function uses covers every node
+  sf = ctx.func(f'{AC}.sub_fixture._find_shared_nodes')
+  rule = 'PAIR.shared-node-recorded'
+  rs.declare(rule, 'a value used from two generated functions is recorded as '
+             'shared (or the selection is rejected) whatever kind of node it '
+             'is', 2)
+  g = ctx.cfg(sf)
+  ret = [gs for gs in walk_function(sf.node) if isinstance(gs, ast.Return)]
+  table = None
+  if ret and isinstance(ret[0].value, ast.Tuple) and isinstance(
+      ret[0].value.elts[0], ast.Name):
+    table = ret[0].value.elts[0].id
+  stores = [n for n in g.nodes() if g.kind[n] == 'stmt' and isinstance(
+      g.stmt[n], ast.Assign) and any(
+          isinstance(t, ast.Subscript) and unparse(t.value) == table
+          for t in g.stmt[n].targets)]
+  if table is None or not stores:
+    raise AnalysisError(f'{sf.qualname}: shared-node table not found')
+  # names holding the ids of the user-chosen sub-fixtures
+  subs_p = sf.params[1]
+  sub_ids = roles.assigned_from(sf, lambda e: isinstance(
+      e, (ast.SetComp, ast.ListComp, ast.GeneratorExp, ast.Call)) and (
+          f'{subs_p}.values()' in unparse(e)) and 'id(' in unparse(e))
+
+  def is_sub_fixture(v):
+    def ev(t):
+      if isinstance(t, ast.Compare) and len(t.ops) == 1 and isinstance(
+          t.ops[0], (ast.In, ast.NotIn)) and unparse(
+              t.comparators[0]) in sub_ids:
+        return v if isinstance(t.ops[0], ast.In) else not v
+      return None
+    return ev
+
+  for n in stores:
+    # the store is reachable for a node that is itself a sub-fixture, or a
+    # raise is: such a node is not silently left out
+    r = dispatch.reach_atoms(g, is_sub_fixture(True))
+    ok = n in r or any(isinstance(g.stmt[m], ast.Raise) for m in r
+                       if g.kind[m] == 'stmt')
+    rs.check(ok, rule, f'{sf.qualname}:sub-fixture-as-shared-node',
+             'a shared value that is a sub-fixture is recorded or rejected'
+             if ok else
+             'a value found to be used by two generated functions is left '
+             'out of the shared nodes when it is one of the user\'s '
+             'sub-fixtures: each function then calls the sub-fixture on its '
+             'own and the executed module builds one object per call',
+             ctx.loc(sf, g.stmt[n]))
+  mark = None
+  for h in sf.nested.values():
+    if any(isinstance(c, ast.Call) and isinstance(
+        c.func, ast.Attribute) and c.func.attr == 'add'
+           for c in walk_function(h.node)):
+      mark = h
+  if mark is None:
+    raise AnalysisError(f'{sf.qualname}: marking callback not found')
+  gm = ctx.cfg(mark)
+  adds = {n for n in gm.nodes() if any(
+      isinstance(c, ast.Call) and isinstance(c.func, ast.Attribute) and
+      c.func.attr == 'add' for c in cfg_lib.walk_node(gm, n))}
+  rets_m = [n for n in gm.nodes() if isinstance(gm.stmt[n], ast.Return)]
+  ok = bool(adds) and all(gm.dominated_by(n, adds, labels=cfg_lib.NO_EXC)
+                          for n in rets_m)
+  rs.check(ok, rule, f'{sf.qualname}:marks-every-node',
+           'every node the top-level function reaches is marked as used by '
+           'it' if ok else
+           'the marking of what the top-level function uses returns early '
+           'for sub-fixtures: a sub-fixture used by the top-level function '
+           'and by another sub-fixture is not seen as shared, both call it, '
+           'and the executed module builds two objects',
+           ctx.loc(mark, mark.node))
+
+
 def run(ctx: Ctx, rs: RuleSet, tier: str):
   p = ctx.p
   # ---- LIT
@@ -897,6 +1016,9 @@ def run(ctx: Ctx, rs: RuleSet, tier: str):
   rs.check(srcs_ok, rule, f'{add.qualname}:returns',
            'every returned reference is derived from __qualname__',
            ctx.loc(add, add.node))
+
+  # ---- sharing across generated functions (sub-fixture pass)
+  _sub_fixture_sharing(ctx, rs)
 
   # ---- KD
   c14.kd_rule(ctx, rs, 'KD.converter-keys', [
